@@ -433,10 +433,9 @@ def run_a(prop, tier, seed, items):
                 streams[stream.split(':')[0]] += 1
             o = outcome(h)
             outcomes[cfg + ':' + o] += 1
-            if cfg == cfgs[-1]:
-                key = ':'.join(stream.split(':')[:2]) if stream.startswith('enum:') else stream.split(':')[0]
-                accepted[key][1] += 1
-                accepted[key][0] += o == 'ok'
+            key = ':'.join(stream.split(':')[:2]) if stream.startswith('enum:') else stream.split(':')[0]
+            accepted[(cfg, key)][1] += 1
+            accepted[(cfg, key)][0] += o == 'ok'
             if m.startswith('bad-'):
                 out['harness_errors'].append('driver rejected an item: %s %s' % (m, it.sexp()[:200]))
                 continue
@@ -475,8 +474,12 @@ def run_a(prop, tier, seed, items):
     out['outcomes'] = dict(outcomes)
     out['message_only_differences'] = dict(count=len(MESSAGE_DIFFS), samples=MESSAGE_DIFFS[:3])
     out['streams'] = dict(streams)
-    # generator quality: how many items of each stream the macro accepts (in the last configuration of the run) -- an
+    # generator quality: how many items of each stream the macro accepts (in the configuration that accepts most) -- an
     # enumerator whose items are all rejected exercises only the error path (round 7: `fieldopts` was such a one)
-    out['accepted_by_stream'] = {k: '%d/%d' % (a, n) for k, (a, n) in sorted(accepted.items())}
+    best = {}
+    for (cfg, k), (a, n) in accepted.items():
+        if k not in best or a > best[k][0]:
+            best[k] = (a, n, cfg)
+    out['accepted_by_stream'] = {k: '%d/%d' % (a, n) for k, (a, n, _) in sorted(best.items())}
     out['distinct_relevant'] = len(relevant_sigs)
     return out
